@@ -579,8 +579,20 @@ def sym_max(*args: typing.Any, **kw: typing.Any) -> typing.Any:
     return r
 
 
-def identity_memoryview(x: typing.Any) -> typing.Any:
-    return x
+class _MemoryviewMeta(type):
+    def __instancecheck__(cls, o: typing.Any) -> bool:
+        return isinstance(o, builtins.memoryview)
+
+    def __eq__(cls, o): return o is cls or o is builtins.memoryview
+    def __hash__(cls): return hash(builtins.memoryview)
+
+
+class identity_memoryview(metaclass=_MemoryviewMeta):
+    """`memoryview` as seen by the code under test: a view of a stand-in array is the array itself; isinstance() keeps its builtin meaning"""
+    def __new__(cls, x: typing.Any):  # type: ignore
+        if hasattr(x, "raw") and hasattr(x, "dtype"):
+            return x
+        return builtins.memoryview(x)
 
 
 STANDINS = dict(int=IntProxy, float=FloatProxy, bool=BoolProxy, min=sym_min, max=sym_max, memoryview=identity_memoryview)
